@@ -669,7 +669,12 @@ class Tensor:
             return
         k, adv = _norm_key(self, key)
         if adv is not None:
-            unsupported('advanced-index assignment')
+            kind_, pos_, idx_ = adv
+            if kind_ != 'arr' or not _py_all(_isinstance(q, (int, _np.integer)) for q in idx_.a.flat):
+                unsupported('advanced-index assignment with symbolic positions')
+            k = list(k)
+            k[pos_] = _np.array([int(q) for q in idx_.a.flat], dtype=_np.int64).reshape(idx_.a.shape)
+            k = tuple(k)
         v = val.a if _isinstance(val, Tensor) else _objarr(_pyify(val))
         if _isinstance(val, Tensor) and not _can_cast(val.dtype, self.dtype):
             raise RuntimeError("Index put requires the source and destination dtypes match")
@@ -810,7 +815,17 @@ def _norm_key(t, key):
             if k.dtype.cat > 1:
                 raise IndexError('tensors used as indices must be long, int, byte or bool tensors')
             if k.dtype.cat == 0:
-                unsupported('boolean mask index')
+                # boolean mask over one axis: the selected positions (symbolic entries are decided by the explorer, one fork per entry)
+                if k.a.ndim != 1 or adv is not None:
+                    unsupported('boolean mask index of this form')
+                ax_ = _py_sum(1 for q in out if q is not None and q is not Ellipsis)
+                if ax_ >= t.a.ndim or k.a.shape[0] != t.a.shape[ax_]:
+                    raise IndexError('The shape of the mask does not match the shape of the indexed tensor')
+                pos_ = [i_ for i_, v_ in enumerate(k.a) if _py_bool(v_)]
+                kk = Tensor(_objarr(pos_) if pos_ else _np.empty((0,), dtype=object), int64)
+                adv = ('arr', len(out), kk)
+                out.append(kk)
+                continue
             if k.a.ndim == 0:
                 v = k.a[()]
                 if _isinstance(v, SymInt):
@@ -1422,6 +1437,20 @@ def cat(tensors, dim=0, axis=None):
 
 concat = cat
 concatenate = cat
+
+
+def index_select(t, dim, index):
+    if index.dtype.cat != 1 or index.a.ndim != 1:
+        raise IndexError('index_select(): Index is supposed to be a vector of integers')
+    import z3
+    n = t.a.shape[dim]
+    for v in index.a:
+        ok = (SymBool(z3.And(v.t >= 0, v.t < n)) if _isinstance(v, SymInt) else (0 <= int(v) < n))
+        if not ok:
+            raise IndexError('index out of range in self')       # (index_select does not wrap negative positions)
+    key = [slice(None)] * t.a.ndim
+    key[dim] = index
+    return _getitem(t, tuple(key)).clone()
 
 
 def dist(a, b, p=2):
